@@ -1,5 +1,5 @@
 /*VERIF
-{ "tu": "src/semaphore.c", "enforce": "dispatch_group_wait", "props": ["C07","C05"],
+{ "tu": "src/semaphore.c", "enforce": "dispatch_group_wait", "props": ["C07","C05","C19"],
   "nondet_volatile": true, "timeout": 180,
   "stub_note": "_dispatch_group_wait_slow: logged call returning an arbitrary result (own contract in h_group_wait_slow)" }
 VERIF*/
